@@ -269,7 +269,7 @@ def judge(ctx, cfg, obs):
 
 def run(ctx):
     rng = ctx.rng
-    n = 90 if ctx.tier == "quick" else 2500
+    n = 110 if ctx.tier == "quick" else 2500
     for t in range(n):
         cfg = gen_cfg(rng)
         ctx.current_case = cfg
